@@ -17,39 +17,44 @@ EXTENDS Naturals, Sequences, FiniteSets, TLC, Json
 Cases == ndJsonDeserialize("mapscripts.ndjson")
 VARIABLE ci
 
-InlineName(c, e) == c.name \o "_" \o e.type
-RowName(c, e, i) == c.name \o "_" \o e.type \o "_" \o ToString(i - 1)
-
 NonTables(c) == SelectSeq(c.entries, LAMBDA e : e.kind # "table")
 TablesOf(c)  == SelectSeq(c.entries, LAMBDA e : e.kind = "table")
-
-HeaderEntry(c, e) == [type |-> e.type,
-                      target |-> IF e.kind = "plain" THEN e.target ELSE InlineName(c, e)]
-ExpectedHeader(c) == [i \in 1..Len(NonTables(c)) |-> HeaderEntry(c, NonTables(c)[i])]
-                     \o [i \in 1..Len(TablesOf(c)) |-> HeaderEntry(c, TablesOf(c)[i])]
-
-ExpectedRows(c, e) == [i \in 1..Len(e.rows) |->
-                          [var |-> e.rows[i].var, val |-> e.rows[i].val,
-                           target |-> IF e.rows[i].kind = "plain" THEN e.rows[i].target ELSE RowName(c, e, i)]]
-
-(* every inline script must exist exactly once, as a local label *)
-InlineLabels(c) ==
-    {InlineName(c, c.entries[i]) : i \in {i \in 1..Len(c.entries) : c.entries[i].kind = "inline"}}
-    \cup UNION {{RowName(c, c.entries[i], j) : j \in {j \in 1..Len(c.entries[i].rows) : c.entries[i].rows[j].kind = "inline"}}
-                : i \in {i \in 1..Len(c.entries) : c.entries[i].kind = "table"}}
+Expected(c)  == NonTables(c) \o TablesOf(c)        \* plain and inline entries in source order, then the tables
 
 DefinedOnceLocal(c, l) == l \in DOMAIN c.defs /\ c.defs[l].n = 1 /\ ~c.defs[l].g
 
-Holds(c) ==
-    /\ c.found
-    /\ c.header = ExpectedHeader(c) /\ c.hterm
-    /\ Len(c.tables) = Len(TablesOf(c))
-    /\ \A i \in 1..Len(TablesOf(c)) :
-          /\ c.tables[i].label = InlineName(c, TablesOf(c)[i])
-          /\ c.tables[i].rows = ExpectedRows(c, TablesOf(c)[i])
-          /\ c.tables[i].term
-          /\ DefinedOnceLocal(c, c.tables[i].label)
-    /\ \A l \in InlineLabels(c) : DefinedOnceLocal(c, l)
+(* The header: one map_script line per entry, in that order; a plain entry names the    *)
+(* author's target, an inline or table entry names a label that the output defines        *)
+(* exactly once, locally (the compiler chooses the name).                                 *)
+HeaderOK(c) ==
+    /\ Len(c.header) = Len(Expected(c)) /\ c.hterm
+    /\ \A i \in 1..Len(c.header) :
+          LET e == Expected(c)[i] IN
+          /\ c.header[i].type = e.type
+          /\ IF e.kind = "plain" THEN c.header[i].target = e.target
+                                  ELSE DefinedOnceLocal(c, c.header[i].target)
+
+RowsOK(c, e, t) ==
+    /\ Len(t.rows) = Len(e.rows) /\ t.term
+    /\ \A j \in 1..Len(e.rows) :
+          /\ t.rows[j].var = e.rows[j].var /\ t.rows[j].val = e.rows[j].val
+          /\ IF e.rows[j].kind = "plain" THEN t.rows[j].target = e.rows[j].target
+                                         ELSE DefinedOnceLocal(c, t.rows[j].target)
+
+(* the table of the k-th table entry is the one emitted under the label its header line names *)
+TablesOK(c) ==
+    \A k \in 1..Len(TablesOf(c)) :
+        LET tl == c.header[Len(NonTables(c)) + k].target IN
+        \E i \in 1..Len(c.tables) : c.tables[i].label = tl /\ RowsOK(c, TablesOf(c)[k], c.tables[i])
+
+(* every compiler-named script / table has its own label *)
+GeneratedTargets(c) ==
+    [i \in 1..Len(c.header) |-> c.header[i].target]
+DistinctGenerated(c) ==
+    \A i, j \in 1..Len(c.header) :
+        (i # j /\ Expected(c)[i].kind # "plain" /\ Expected(c)[j].kind # "plain") => c.header[i].target # c.header[j].target
+
+Holds(c) == c.found /\ HeaderOK(c) /\ TablesOK(c) /\ DistinctGenerated(c)
 
 Init == ci \in 1..Len(Cases)
 Next == UNCHANGED ci
